@@ -139,7 +139,8 @@ def gen_transport(rng, tier):
 
 
 # ---------------------------------------------------------------- C08: grid histories
-CONFIGS = [(0, 8, 4, 2, 4, True), (0, 8, 4, 2, 6, True), (0, 8, 4, 2, 4, False), (0, 6, 3, 2, 4, True), (0, 4, 4, 2, 6, True)]
+CONFIGS = [(0, 8, 4, 2, 4, True), (0, 8, 4, 2, 6, True), (0, 8, 4, 2, 4, False), (0, 6, 3, 2, 4, True), (0, 4, 4, 2, 6, True),
+           (0, 8, 3, 8, 12, True)]      # fewer classes than minBins (the constructor does not check): the dissolution re-mesh stays inside the grid
 
 
 def pattern(k, p):
@@ -335,6 +336,10 @@ def gen_histories(rng, tier):
                 hist.append((cfg, [dict(op="recon"), dict(op="update", p=p1), mo, dict(ch), mo, dict(op="update", p=p1), mo, dict(op="settime", t=Fr(1)), mo]))
                 hist.append((cfg, [dict(op="update", p=p1), mo, dict(op="backup"), dict(ch), mo, dict(op="revert"), mo]))
                 hist.append((cfg, [dict(op="recon"), dict(op="update", p=p1), dict(ch), dict(op="update", p=p1), mo, dict(op="settime", t=Fr(3, 2)), mo, dict(op="reset", rb=True), mo]))
+    # a grid with fewer classes than minBins: the dissolution branch of the automatic adjustment (regression: IndexError before fix c0cd1b2)
+    for pz in (2, 5, 3, 4):
+        hist.append((CONFIGS[5], [dict(op="update", p=pz), dict(op="adjust", chk=True), mo]))
+        hist.append((CONFIGS[5], [dict(op="update", p=pz), dict(op="adjust", chk=True), dict(op="update", p=2), dict(op="adjust", chk=True), dict(op="adjust", chk=False)]))
     # operations that modify the distribution IN PLACE (normalisation, an update with the model's own array) right after a backup or a
     # recorded load: the backup / the record must still hold the distribution they were made from
     for cfg in CONFIGS[:3]:
